@@ -12,6 +12,7 @@ ItersOK(spec, obs) == /\ Len(spec) = Len(obs)
                       /\ \A i \in DOMAIN spec : spec[i].id = obs[i].id /\ Agree(spec[i].r, obs[i].r)
 Judge(e) ==
     /\ e.op = "bundle"
+    /\ e.out.k \in {"ok", "err"}                              \* no panic
     /\ LET b == e.args.bytes  o == e.out IN
        /\ o.is = IsBundle(b)                                  \* recognition: complete header with the magic
        /\ IF ~IsBundle(b) THEN o.k = "err"                    \* parsing refused
